@@ -49,12 +49,16 @@ def _c08_state(m, closed_key='is_closed', with_other=True, with_weights=False):
     return d
 
 
+# the stored identifier of the position, and the same name without the `u-` prefix the contract adds to explicit identifiers: only the stored form names it
+IDENT_FORMS = ['u-a', 'a']
+
+
 def _replay_s1(m):
     ch = m['_choices']
     who = ['alice', 'bob', 'pool_manager'][ch['sender']]
     em = [None, False][ch['emergency']]
     d = _c08_state(m)
-    d['txs'] = [(who, _pos_msg('withdraw', identifier='u-a', emergency_unlock=em), [])]
+    d['txs'] = [(who, _pos_msg('withdraw', identifier=IDENT_FORMS[ch.get('ident_form', 0)], emergency_unlock=em), [])]
     return d
 
 
@@ -64,7 +68,7 @@ def _replay_s2(m):
     who = ['alice', 'bob', 'pool_manager'][ch['sender']]
     lp = None if ch['mode'] == 0 else coin_j(LP1, m['close_amount'])
     d = _c08_state(m, with_weights=True)
-    d['txs'] = [(who, _pos_msg('close', identifier='u-a', lp_asset=lp), [])]
+    d['txs'] = [(who, _pos_msg('close', identifier=IDENT_FORMS[ch.get('ident_form', 0)], lp_asset=lp), [])]
     return d
 
 
@@ -119,8 +123,9 @@ def s1(I):
     ch = Chain(I, CONTRACTS_FM)
     pre = b.snapshot()
     others = snapshot_positions(I)
-    st, resp = ch.execute(who, FM, manage_position('Withdraw', identifier='u-a', emergency_unlock=emergency), [])
-    allowed = smt.And(who == 'alice', closed, (exp <= now) if closed else False)
+    ident = IDENT_FORMS[I.choose(2, 'ident_form')]
+    st, resp = ch.execute(who, FM, manage_position('Withdraw', identifier=ident, emergency_unlock=emergency), [])
+    allowed = smt.And(who == 'alice', closed, (exp <= now) if closed else False, ident == 'u-a')
     I.observe('status', 'ok' if st == 'ok' else 'err')
     observe_position(I, 'u-a')
     observe_position(I, 'u-b')
@@ -168,9 +173,10 @@ def s2(I):
     ch = Chain(I, CONTRACTS_FM)
     pre = b.snapshot()
     others = snapshot_positions(I)
-    st, resp = ch.execute(who, FM, manage_position('Close', identifier='u-a', lp_asset=arg), [])
+    ident = IDENT_FORMS[I.choose(2, 'ident_form')]
+    st, resp = ch.execute(who, FM, manage_position('Close', identifier=ident, lp_asset=arg), [])
     I.observe('status', 'ok' if st == 'ok' else 'err')
-    for pid in ('u-a', 'u-b', 'p-8'):
+    for pid in ('u-a', 'u-b', 'p-8', 'a'):
         observe_position(I, pid)
     observe_balances(I, b, [('alice', LP1), (FM, LP1)])
     if st != 'ok':
@@ -181,6 +187,8 @@ def s2(I):
             pass
         return
     I.check('only_owner_closes', who == 'alice')
+    I.check('only_the_stored_identifier_names_the_position', ident == 'u-a')
+    I.check('no_record_under_another_identifier', get_position(I, 'a') is None)
     I.check('only_open_positions_close', not closed)
     I.check('no_lp_moves', smt.And(smt.Eq(b.get(FM, LP1), pre.get(FM, LP1)), smt.Eq(b.get('alice', LP1), pre.get('alice', LP1))))
     I.check('other_position_untouched', pos_eq(I, get_position(I, 'u-b'), others['u-b']))
@@ -194,7 +202,7 @@ def s2(I):
             I.check('full_close_only_for_equal_amount', smt.Eq(camt, amt))
     else:
         I.cover('partial', HINT)
-        fresh = [q for q in all_positions(I) if q.get('identifier') not in ('u-a', 'u-b')]
+        fresh = [q for q in all_positions(I) if q.get('identifier') not in ('u-a', 'u-b', 'a')]
         newp = fresh[0] if len(fresh) == 1 else None
         I.check('partial_close_creates_exactly_one_new_position', newp is not None)
         if newp is not None:
